@@ -178,9 +178,12 @@ class Contract:
         self._modifies.extend(fields)
         return self
 
-    def loop(self, ordinal, inv, hints=None, modifies=None, props=None, variant=None, var_kinds=None):
+    def loop(self, ordinal, inv, hints=None, modifies=None, props=None, variant=None, var_kinds=None,
+             est_hints=None, forget=False):
         self.loops[ordinal] = LoopSpec(inv, hints, modifies, props, variant)
         self.loops[ordinal].var_kinds = var_kinds
+        self.loops[ordinal].est_hints = est_hints
+        self.loops[ordinal].forget = forget
         return self
 
     def for_props(self, *ps):
